@@ -110,10 +110,10 @@ impl super::Bundle {
 
         // All other data except the UTXO and proprietary fields in the input should be
         // cleared from the PSBT. The UTXO should be kept to allow Transaction Extractors
-        // to verify the final network serialized transaction.
+        // to verify the final network serialized transaction. The required lock times are
+        // kept as well: the Transaction Extractor derives the transaction's lock time from
+        // them, and it must be the lock time the signatures committed to.
         for input in &mut self.inputs {
-            input.required_time_lock_time = None;
-            input.required_height_lock_time = None;
             input.redeem_script = None;
             input.partial_signatures.clear();
             input.bip32_derivation.clear();
